@@ -126,7 +126,8 @@ Print Assumptions C17hs13_initial_states_bounded.
 
 (* the constant really is the flight size: with MTU 120 one stale 145-byte ClientHello fragment
    makes the server emit its whole 16-datagram flight again (17 datagrams after the fault-free
-   exchange, 33 after its own timer at 1000 ms, 49 after that single delivery) *)
+   exchange, 33 after its own timer at 1000 ms - the fragment costs nothing if it arrives right
+   then - and 49 when it arrives 600 ms later) *)
 Theorem C17hs13_amplification_witness :
   sout_len (run_moves storm_cfg (sys_init storm_cfg) storm_moves) = 17%nat /\
   sout_len (run_moves storm_cfg (sys_init storm_cfg) (storm_moves ++ [Deliver true 28 1000])) = 33%nat /\
@@ -134,6 +135,52 @@ Theorem C17hs13_amplification_witness :
   maxrecs storm_cfg = 16%nat.
 Proof. exact storm_witness. Qed.
 Print Assumptions C17hs13_amplification_witness.
+
+(* no storms, in time: within half an initial interval of its last transmission ([recent]) a waiting
+   endpoint answers a datagram with handshake records only if the datagram lets it move on to a
+   later flight (or finish) or acknowledges a fragment that was still pending; a repetition by the
+   peer is not answered.  Premise: no ACK with an empty record list (never sent; forging one needs
+   the keys). *)
+Theorem C17hs13_reanswer_needs_progress :
+  forall (c : cfg) (e : ep) (d : dgram) (now : N),
+    flags_cfg c -> e_fst e = Waiting -> recent c e now ->
+    Forall (fun a => a <> []) (snd (process_records true e d)) ->
+    has_hs (snd (on_datagram c e d now)) = true ->
+    stage e < stage (fst (on_datagram c e d now)) \/
+    exists f, In f (concat (snd (process_records true e d))) /\ fmem f (e_pending e) = true.
+Proof. exact reanswer_needs_progress. Qed.
+Print Assumptions C17hs13_reanswer_needs_progress.
+
+(* the zero-delay ping-pong is impossible: over ANY sequence of ACK-free datagrams, however long,
+   that arrive within a window shorter than half an initial interval starting no earlier than the
+   endpoint's last transmission, the endpoint emits handshake records in at most 7 - stage steps
+   (each one moves it to a later flight) *)
+Theorem C17hs13_no_zero_delay_ping_pong :
+  forall (c : cfg) (T : N) (ins : list input), flags_cfg c -> forall e,
+    Forall (in_window c T) ins -> stage e <= 7 -> (e_fst e = Waiting -> T <= e_lastsent e) ->
+    N.of_nat (count_hs (snd (run c e ins))) + stage e <= 7.
+Proof. exact no_zero_delay_ping_pong. Qed.
+Print Assumptions C17hs13_no_zero_delay_ping_pong.
+
+(* KNOWN GAP, as coded: a fragment whose message_seq is not below the reassembly sequence is never a
+   retransmission, even when the identical fragment is already held ... *)
+Theorem C17hs13_held_fragment_is_new_data :
+  forall (e : ep) (m ht fo fl tl ep0 : N),
+    e_fbcur (fb_advance e) <= m -> snd (push e (m, ht, fo, fl, tl, ep0)) = false.
+Proof. exact held_fragment_is_new_data. Qed.
+Print Assumptions C17hs13_held_fragment_is_new_data.
+
+(* ... hence "the initial interval is restored only when NEW data arrives" is refuted on the faithful
+   model: an endpoint backed off to 4 s that is handed a fragment it already holds is back at 1 s
+   (replayed on the implementation by TestVerifHs13Timed's repeated-fragment scenarios; one copy per
+   timer period keeps the endpoint from ever backing off) *)
+Theorem C17hs13_only_new_data_restores_interval_refuted :
+  exists (e : ep) (d : dgram) (now : N),
+    existsb (same_slot 40 0) (e_frags e) = true /\ d = repeat_dgram /\
+    e_interval e = 4000 /\ c_initial repeat_cfg = 1000 /\
+    e_interval (fst (on_datagram repeat_cfg e d now)) = 1000 /\ snd (on_datagram repeat_cfg e d now) = [].
+Proof. exact only_new_data_restores_interval_refuted. Qed.
+Print Assumptions C17hs13_only_new_data_restores_interval_refuted.
 
 (* non-vacuity: the schedule 1 s, 2 s, ... 32 s, 60 s, 60 s of a client waiting in Flight 1 *)
 Example C17hs13_example_schedule :
